@@ -202,8 +202,10 @@ def oracle(ctx, deep=False):
     # validation (not proof) of the floating-point clause: floats vs exact, conditioning-scaled tolerance
     nf = 0
     for i in range(ctx.n(100, 2000)):
-        rows1 = G.rand_rows(ctx.rng, ctx.rng.choice([2, 5, 30]), style=ctx.rng.choice(["generic", "positive", "ints"]))
-        rows2 = G.rand_rows(ctx.rng, ctx.rng.choice([2, 7, 25]), style="positive")
+        st = ctx.rng.choice(["generic", "positive", "ints", "offset"])
+        # "offset": values 1e9 + small; pooling must stay accurate (only deviations and the difference of means are squared)
+        rows1 = G.rand_rows(ctx.rng, ctx.rng.choice([2, 5, 30]), style=st)
+        rows2 = G.rand_rows(ctx.rng, ctx.rng.choice([2, 7, 25]), style="offset" if st == "offset" else "positive")
         try:
             fails = _check_sample_case(rows1, rows2, float, 1e-6)
         except ZeroDivisionError:
